@@ -287,7 +287,16 @@ func buildLB(e *worlds.Env, forC11 bool) (*lbWorld, *lbSample) {
 	})
 	// clients
 	nc := 1 + tp.Choose(12, "n-clients")
-	burst := tp.Prob(1, 2, "client-burst") // connections arriving together reach the policy concurrently
+	// a busy pool: enough early, long-lived connections that every upstream carries some, then
+	// arrivals and departures spread over the time in which those end - selections then run
+	// while the connection counts they read are moving, with no idle upstream to short-cut to
+	busy := !forC11 && tp.Prob(1, 4, "busy-pool")
+	holders := 0
+	if busy {
+		holders = 2*nup + tp.Choose(nup+1, "holders")
+		nc = holders + 2 + tp.Choose(10, "n-late")
+	}
+	burst := !busy && tp.Prob(1, 2, "client-burst") // connections arriving together reach the policy concurrently
 	burstAt := time.Duration(tp.Choose(int(horizon/time.Millisecond), "burst-ms")) * time.Millisecond
 	for i := 1; i <= nc; i++ {
 		plan := &worlds.ClientPlan{ID: i, Addr: simnet.TCPAddr(fmt.Sprintf("10.9.0.%d", 1+tp.Choose(5, "client-ip")), 50000+i), End: worlds.EndLinger}
@@ -296,6 +305,14 @@ func buildLB(e *worlds.Env, forC11 bool) (*lbWorld, *lbSample) {
 			plan.StartAt = burstAt + time.Duration(tp.Choose(2, "burst-jitter"))*time.Millisecond
 		}
 		plan.Linger = time.Duration(1+tp.Choose(3000, "linger-ms")) * time.Millisecond
+		if busy {
+			if i <= holders {
+				plan.StartAt = time.Duration(tp.Choose(100, "holder-start-ms")) * time.Millisecond
+				plan.Linger = time.Duration(1000+tp.Choose(2000, "holder-linger-ms")) * time.Millisecond
+			} else {
+				plan.StartAt = time.Duration(1000+tp.Choose(2000, "late-start-ms")) * time.Millisecond
+			}
+		}
 		m := &worlds.ConnModel{ID: i, Key: e.S.Seed*31 + uint64(i), Addr: plan.Addr.String()}
 		m.App = worlds.Stream(m.Key, 1+tp.Choose(200, "len"))
 		plan.App = m.App
@@ -378,6 +395,7 @@ func runC10(t *testing.T, e *worlds.Env, tier string) (bool, any) {
 			return
 		}
 		evs := L.rs.Events
+		c10dials := e.N.DialsSnapshot()
 		sample.Selects = len(evs)
 		sample.SimTime = e.S.SimElapsed.String()
 		sets := map[string]bool{}
@@ -387,7 +405,55 @@ func runC10(t *testing.T, e *worlds.Env, tier string) (bool, any) {
 		hashSeen := map[hk]int{}
 		hashByIP := map[string][]worlds.SelectEvent{}
 		var rrRun []int
+		rrPrevEnd := -1
 		rrSet := ""
+		// Can the availability of some upstream have changed (and changed back) while a Select
+		// call was running? Only then is a result that contradicts the snapshots taken before
+		// and after it legitimate. Availability moves with: connection counts (only with a
+		// connection limit), the verdict of an active probe (stored between the end of its dial
+		// and the return of the probing goroutine), a passive failure being counted (between a
+		// handler's failed dial and that handler's next selection or return) or forgotten
+		// (fail_duration after it, on the simulated clock).
+		selSteps := map[string][]int{}
+		for _, ev := range evs {
+			selSteps[ev.By] = append(selSteps[ev.By], ev.Step)
+		}
+		passive := L.failDur > 0 && L.maxFails > 0
+		mayChange := func(ev worlds.SelectEvent) bool {
+			if ev.Exclusive {
+				return false
+			}
+			if L.maxConns > 0 {
+				return true
+			}
+			for _, d := range c10dials {
+				handler := strings.HasPrefix(d.By, "srv.")
+				switch {
+				case !handler && L.active:
+					end, ok := e.S.ExitStep[d.By]
+					if d.Step <= ev.EndStep && (!ok || end >= ev.Step) {
+						return true
+					}
+				case handler && !d.OK && passive:
+					end, ok := e.S.ExitStep[d.By]
+					if !ok {
+						end = 1 << 30
+					}
+					for _, s := range selSteps[d.By] {
+						if s > d.Step && s < end {
+							end = s
+						}
+					}
+					if d.Step <= ev.EndStep && end >= ev.Step {
+						return true
+					}
+					if t := d.Done + L.failDur; t >= ev.At-e.TimerLatency-time.Millisecond && t <= ev.EndAt+e.TimerLatency+time.Millisecond {
+						return true
+					}
+				}
+			}
+			return false
+		}
 		for _, ev := range evs {
 			A := availSet(ev.Before)
 			sets[setKey(A)] = true
@@ -397,10 +463,34 @@ func runC10(t *testing.T, e *worlds.Env, tier string) (bool, any) {
 			if !ev.Stable {
 				sample.Unstable++
 				rrRun, rrSet = nil, ""
+				// connection counts moved during the call; if availability did not, membership
+				// of the result in the available set can still be judged
+				if ev.AvailStable && !mayChange(ev) {
+					e.S.Stats["probe_select_while_counts_moved_"+sig]++
+					switch {
+					case len(A) > 0 && ev.Result == -1:
+						fail("none-selected", "policy %s returned none although upstreams %v stayed available throughout the call (pool size %d; connection counts were changing)", L.policy, A, len(ev.Before))
+						return
+					case ev.Result >= 0 && !contains(A, ev.Result):
+						fail("unavailable-selected", "policy %s returned upstream %d which was not available before or after the call (available: %v)", L.policy, ev.Result, A)
+						return
+					}
+				}
 				continue
+			}
+			if mayChange(ev) {
+				sample.Unstable++
+				rrRun, rrSet = nil, ""
+				continue // same snapshots before and after, but not necessarily in between
 			}
 			if len(A) < len(ev.Before) {
 				e.S.Stats["probe_select_with_unavailable_member"]++
+			}
+			// "below its connection limit" and "fewest connections" are about real connections:
+			// the counters the policies read must not exceed the connections that exist
+			if msg := countBound(e, ev, c10dials); msg != "" {
+				fail("count-leak", "%s", msg)
+				return
 			}
 			// availability itself against the stated rule, from the raw per-peer counters:
 			// every peer healthy, below max_fails recent failures, below the connection limit
@@ -488,8 +578,13 @@ func runC10(t *testing.T, e *worlds.Env, tier string) (bool, any) {
 				}
 				hashByIP[ip] = append(hashByIP[ip], ev)
 			case "round_robin":
-				if setKey(A) != rrSet {
+				// the order of the recorded events is the order of the cursor only for calls that
+				// did not overlap: a call that began before the previous one returned starts a new window
+				if setKey(A) != rrSet || ev.Step <= rrPrevEnd {
 					rrRun, rrSet = nil, setKey(A)
+				}
+				if ev.EndStep > rrPrevEnd {
+					rrPrevEnd = ev.EndStep
 				}
 				rrRun = append(rrRun, ev.Result)
 				n := len(A)
@@ -507,6 +602,9 @@ func runC10(t *testing.T, e *worlds.Env, tier string) (bool, any) {
 			}
 		}
 		sample.AvailSets = len(sets)
+		for _, msg := range countsAtEnd(e, L) {
+			fail(msg[0], "%s", msg[1])
+		}
 	})
 	if L == nil {
 		return false, sample
@@ -555,15 +653,30 @@ func checkC11(e *worlds.Env, L *lbWorld, sample *lbSample) {
 	isHandler := func(by string) bool { return strings.HasPrefix(by, "srv.") }
 	// passive failures per peer address
 	type failure struct {
-		at   time.Duration
-		step int
+		at     time.Duration
+		step   int // the dial failed
+		settle int // the failing handler has certainly counted it: its next selection, or its return
+		by     string
+	}
+	selStepsBy := map[string][]int{}
+	for _, ev := range evs {
+		selStepsBy[ev.By] = append(selStepsBy[ev.By], ev.Step)
 	}
 	fails := map[string][]failure{}
 	for _, d := range dials {
 		if !d.OK {
 			sample.DialFails++
 			if isHandler(d.By) {
-				fails[d.Addr] = append(fails[d.Addr], failure{d.Done, d.Step})
+				settle := 1 << 30
+				if x, ok := e.S.ExitStep[d.By]; ok {
+					settle = x
+				}
+				for _, s := range selStepsBy[d.By] {
+					if s > d.Step && s < settle {
+						settle = s
+					}
+				}
+				fails[d.Addr] = append(fails[d.Addr], failure{d.Done, d.Step, settle, d.By})
 			}
 		}
 	}
@@ -599,28 +712,9 @@ func checkC11(e *worlds.Env, L *lbWorld, sample *lbSample) {
 				}
 			}
 		}
-		// conservation: a peer never counts more connections than there are handlers that have
-		// connected to it and are still running (each handler counts its connection once, from
-		// the moment the whole upstream is dialled until it returns)
-		for ui, st := range ev.Before {
-			for _, p := range st.Peers {
-				bound := 0
-				perG := map[string]bool{}
-				for _, d := range dials {
-					if !d.OK || !isHandler(d.By) || d.Addr != p.Addr || d.Step > ev.Step || perG[d.By] {
-						continue
-					}
-					if x, ok := e.S.ExitStep[d.By]; ok && x < ev.Step {
-						continue
-					}
-					perG[d.By] = true
-					bound++
-				}
-				if p.NumConns > bound {
-					fail("count-leak", "upstream %d peer %s counts %d open connections at %v, but only %d running handlers have a connection to it", ui, p.Addr, p.NumConns, ev.At, bound)
-					return
-				}
-			}
+		if msg := countBound(e, ev, dials); msg != "" {
+			fail("count-leak", "%s", msg)
+			return
 		}
 		if !ev.Stable {
 			continue
@@ -637,6 +731,9 @@ func checkC11(e *worlds.Env, L *lbWorld, sample *lbSample) {
 							if f.step == ev.Step {
 								ambiguous = true
 							}
+						case f.settle > ev.Step || (f.settle == ev.Step && f.by != ev.By):
+							// the dial has failed; the handler that saw it has not necessarily counted it yet
+							ambiguous = true
 						case ev.At < f.at+L.failDur:
 							n++
 						case ev.At <= f.at+L.failDur+lat:
@@ -771,21 +868,57 @@ func checkC11(e *worlds.Env, L *lbWorld, sample *lbSample) {
 		}
 	}
 	// counters at the end
+	for _, msg := range countsAtEnd(e, L) {
+		fail(msg[0], "%s", msg[1])
+	}
+	_ = sort.Ints
+}
+
+
+// countBound: a peer never counts more connections than there are handlers that have
+// connected to it and are still running (each handler counts its connection once, from
+// the moment the whole upstream is dialled until it returns). "" = holds.
+func countBound(e *worlds.Env, ev worlds.SelectEvent, dials []simnet.DialRec) string {
+	for ui, st := range ev.Before {
+		for _, p := range st.Peers {
+			bound := 0
+			perG := map[string]bool{}
+			for _, d := range dials {
+				if !d.OK || !strings.HasPrefix(d.By, "srv.") || d.Addr != p.Addr || d.Step > ev.Step || perG[d.By] {
+					continue
+				}
+				if x, ok := e.S.ExitStep[d.By]; ok && x < ev.Step {
+					continue
+				}
+				perG[d.By] = true
+				bound++
+			}
+			if p.NumConns > bound {
+				return fmt.Sprintf("upstream %d peer %s counts %d open connections at %v, but only %d running handlers have a connection to it", ui, p.Addr, p.NumConns, ev.At, bound)
+			}
+		}
+	}
+	return ""
+}
+
+// countsAtEnd: no negative counter; zero connections counted once every handler has returned.
+func countsAtEnd(e *worlds.Env, L *lbWorld) [][2]string {
+	var out [][2]string
 	handlersLeft := 0
 	for _, g := range e.S.Live() {
-		if isHandler(g) {
+		if strings.HasPrefix(g, "srv.") {
 			handlersLeft++
 		}
 	}
 	for ui, u := range L.pool {
 		for _, p := range u.VerifPeers() {
 			if handlersLeft == 0 && p.NumConns != 0 {
-				fail("count-leak", "upstream %d peer %s still counts %d open connections after every handler has returned", ui, p.Addr, p.NumConns)
+				out = append(out, [2]string{"count-leak", fmt.Sprintf("upstream %d peer %s still counts %d open connections after every handler has returned", ui, p.Addr, p.NumConns)})
 			}
 			if p.Fails < 0 || p.NumConns < 0 {
-				fail("negative-counter", "upstream %d peer %s: fails=%d conns=%d at the end", ui, p.Addr, p.Fails, p.NumConns)
+				out = append(out, [2]string{"negative-counter", fmt.Sprintf("upstream %d peer %s: fails=%d conns=%d at the end", ui, p.Addr, p.Fails, p.NumConns)})
 			}
 		}
 	}
-	_ = sort.Ints
+	return out
 }
